@@ -24,7 +24,7 @@ INVARIANT OrbitStabiliser
 
 def drive(rec):
     import numpy as np
-    t = {"n": rec["n"], "gram": rec["gram"], "asym": rec["asym"], "ops": [],
+    t = {"n": rec["n"], "gram": rec["gram"], "asym": rec["asym"], "ops": [], "decimals": int(rec.get("decimals") or 0),
          "applied": {"exc": "", "off": False, "codes": [], "raw": []},
          "uc": {"exc": "", "off": False, "rows": [], "cc": []},
          "slab": {"exc": "", "off": False, "rows": [], "lo": rec["slab"][0], "hi": rec["slab"][1], "n_uc": 0, "n_cells": 0},
@@ -95,7 +95,22 @@ def recipes_for(ctx, rows, per_setting):
             hi = [rng.randint(0, 1) for _ in range(3)]
             out.append({"number": r["number"], "choice": r["choice"], "n": n, "gram": gram,
                         "u": rng.uniform(3.0, 12.0) / (max(gram[i][i] for i in range(3)) ** 0.5),
-                        "asym": asym, "slab": [lo, hi], "route": rng.choice(["params", "vectors"])})
+                        "asym": asym, "slab": [lo, hi], "route": rng.choice(["params", "vectors"]),
+                        "decimals": rng.choice([0, 0, 12, 9])})
+    # special positions with coordinates in thirds / sixths / twelfths, given to file precision: their symmetry images
+    # carry different rounding noise and may coincide across a cell face (0.0 vs 0.99999...)
+    for r in rows:
+        if r["number"] < 143:
+            continue
+        for k in range(per_setting):
+            asym = xtal.gen_asym(rng, r["ops"], 12, rng.randint(1, 2), want_special=True)
+            if not asym:
+                continue
+            gram = xtal.sym_gram(r["ops"], rng)
+            out.append({"number": r["number"], "choice": r["choice"], "n": 12, "gram": gram,
+                        "u": rng.uniform(3.0, 12.0) / (max(gram[i][i] for i in range(3)) ** 0.5),
+                        "asym": asym, "slab": [[-1, 0, 0], [0, 0, 1]], "route": "params", "decimals": rng.choice([12, 9, 12]),
+                        "src": "file-precision special positions"})
     return out
 
 
